@@ -139,8 +139,21 @@ class Calls:
                         out += self.call_function(None, fn, vals, kwv, s2, line, f"{mod}:{fn.name}", module=mod)
                 return out
             if f in st.loc:
-                raise Unsupported("call of a local callable " + f)
+                cname = T.class_of(st.loc[f].ty)
+                found = self.repo.find_method(cname, "__call__") if cname else None
+                if found is None:
+                    raise Unsupported("call of a local callable " + f)
+                out = []
+                for s1, vals in self.ev_args(n.args, st):
+                    for s2, kwv in self.ev_kwargs(n, s1):
+                        out += self.call_function(found[0], found[1], [s2.loc[f]] + vals, kwv, s2, line, f"{found[0].name}.__call__")
+                return out
             raise Unsupported("call of " + f)
+        # ---- opaque library calls (assumed total, result unconstrained)
+        if src == "re.compile":
+            self.assumptions_used.add("re.compile/search/group are total and their results unconstrained (opaque)")
+            s1 = st.copy()
+            return [(s1, SV(fresh("pattern", V), Ty("opaque", ("Pattern",))))]
         # ---- method calls
         if isinstance(n.func, ast.Attribute):
             return self.ev_method_call(n, st)
@@ -292,6 +305,14 @@ class Calls:
                     out += self.dict_method(m, o, vals, s2, n)
                 elif ot.k == "str":
                     out += self.str_method(m, o, vals, s2, n)
+                elif ot.k == "opaque":
+                    if (ot.a[0], m) == ("Pattern", "search"):
+                        r = SV(fresh("match", V), T.opt(Ty("opaque", ("Match",))))
+                        out.append((s2, r))
+                    elif (ot.a[0], m) == ("Match", "group"):
+                        out.append((s2, SV(mk_str(fresh("group", StrS)), T.STR)))
+                    else:
+                        raise Unsupported(f"opaque method {ot.a[0]}.{m}")
                 elif ot.k in ("obj", "sub"):
                     cname = ot.a[0]
                     found = self.repo.find_method(cname, m)
@@ -357,6 +378,14 @@ class Calls:
             return [(st, SV(mk_int(str_count_nl(s)), T.INT))]
         if m == "startswith" and len(vals) == 1:
             return [(st, SV(mk_bool(z3.PrefixOf(as_s(vals[0].term), s)), T.BOOL))]
+        if m == "splitlines" and not vals:
+            self.assumptions_used.add("str.splitlines() returns some list of strings (opaque)")
+            lst_ = self.new_list(st, [], T.lst(T.STR))
+            ln = fresh("nlines", IntS)
+            st.pc = st.pc + (ln >= 0,)
+            st.heap["llen"] = z3.Store(st.h("llen"), as_r(lst_.term), ln)
+            st.heap["lel"] = z3.Store(st.h("lel"), as_r(lst_.term), fresh("lines", ArrIV))
+            return [(st, lst_)]
         if m in ("strip", "lstrip", "rstrip", "lower", "upper"):
             r = fresh(m, StrS)
             self.assumptions_used.add(f"str.{m}() returns an opaque string")
